@@ -58,13 +58,24 @@ class PIP(object):
         self.Pxy = Pxy
         self.fns = {c[1]: getattr(vectoring, c[1]) for c in CALLS}
 
-    def polygon(self, vs, points, tag, key=None, conv=None):
-        """one case: polygon vs (list of int pairs, simple) against points"""
+    def polygon(self, vs, points, tag, key=None, conv=None, pconv=None, reuse=False):
+        """one case: polygon vs (list of int pairs, simple) against points
+        conv / pconv: the sequence kinds of the vertices and of the points (they may differ: a tuple point against a
+        polygon of lists as json.loads gives it); reuse: the vertices are written into one list object that the
+        caller keeps and refills in place for every polygon (a moving fence)"""
         ctx = self.ctx
         classes = {"in": 0, "on": 0, "out": 0}
         edge_not_vertex = 0
         vset = set(vs)
         cvs = [conv(p) for p in vs] if conv else vs
+        if pconv is not None:
+            conv = pconv
+        if reuse:
+            if not hasattr(self, "shared"):
+                self.shared = []
+            self.shared[:] = cvs
+            cvs = self.shared
+            ctx.hit("polygons_in_the_callers_reused_list")
         for p in points:
             cls = fnref.classify_point(p, vs)
             classes[cls] += 1
@@ -164,7 +175,13 @@ def do_random(ctx, count, rng):
             vs.reverse()
         form = rng.randrange(4)
         conv = (None, list, lambda p, P=pip.Pxy: P(*p), lambda p: tuple(p))[form]
-        classes = pip.polygon(vs, test_points(rng, vs, 24), "random", conv=conv)
+        import random as _random
+        r2 = _random.Random(repr(vs[:3]))
+        kinds = (None, list, lambda p, P=pip.Pxy: P(*p), lambda p: tuple(p))
+        pconv = kinds[r2.randrange(4)] if r2.random() < 0.5 else None      # points of another sequence kind than the vertices
+        if pconv is not None:
+            ctx.hit("points_of_their_own_sequence_kind")
+        classes = pip.polygon(vs, test_points(rng, vs, 24), "random", conv=conv, pconv=pconv, reuse=r2.random() < 0.4)
         made += 1
         ctx.hit("random_" + kind)
         ctx.hit("random_orientation_" + ("ccw" if fnref.twice_area(vs) > 0 else "cw"))
@@ -180,6 +197,8 @@ def worker(ctx, job):
 
 
 def run(ctx):
+    ctx.floor("polygons_in_the_callers_reused_list", ctx.pick(30, 2000))
+    ctx.floor("points_of_their_own_sequence_kind", ctx.pick(30, 2000))
     # the pruned enumerator must agree with brute force (checked on triangles and one pentagon start)
     import itertools
     from vf.core import Inconclusive
